@@ -72,9 +72,10 @@ TwiceVerdict(e) ==
   IF v1 # OK THEN v1
   ELSE LET n == e.ntx[1] * 65536 + e.ntx[2]
            M == [n |-> n, hashes |-> e.hashes, bits |-> UnpackFlags(e.flags)]
-           x2 == SecondExtract(M, [ok |-> e.ok])
+           x2 == SecondExtract(M, [ok |-> e.ok, bad |-> e.bad])
        IN IF ~x2.defined THEN OK
           ELSE IF e.second.ok # x2.ok THEN V("second-extraction-result", x2.ok, e.second.ok)
+          ELSE IF e.second.root # e.root THEN V("second-extraction-root", Take(e.root, 4), Take(e.second.root, 4))
           ELSE IF e.second.bad # x2.bad THEN V("second-extraction-bad-flag", x2.bad, e.second.bad)
           ELSE IF e.second.matches # e.matches \/ e.second.items # e.items THEN V("second-extraction-changed-matches", Len(e.matches), Len(e.second.matches))
           ELSE OK
